@@ -264,6 +264,22 @@ class GeminiServerProtocol(asyncio.Protocol):
             duration_ms=round(duration_ms, 2),
         )
 
+        # Encode the body before anything is written, so a failure here cannot leave a
+        # half-written response behind; a body is only allowed on 2x responses
+        body = b""
+        if response.body and 20 <= response.status <= 29:
+            if isinstance(response.body, bytes):
+                body = response.body
+            else:
+                try:
+                    body = response.body.encode("utf-8")
+                except UnicodeEncodeError:
+                    response = GeminiResponse(
+                        status=StatusCode.TEMPORARY_FAILURE.value,
+                        meta="Response cannot be encoded as UTF-8",
+                    )
+                    body = b""
+
         # Build response header: <STATUS><SPACE><META><CRLF>
         # The meta must stay on the header line: no CR/LF, at most MAX_META_SIZE bytes
         meta = response.meta.replace("\r", " ").replace("\n", " ")
@@ -275,12 +291,8 @@ class GeminiServerProtocol(asyncio.Protocol):
         self.transport.write(header)
 
         # Send body if present (only for 2x success responses)
-        # FIX: Handle both text (str) and binary (bytes) content
-        if response.body and 20 <= response.status <= 29:
-            if isinstance(response.body, bytes):
-                self.transport.write(response.body)
-            else:
-                self.transport.write(response.body.encode("utf-8"))
+        if body:
+            self.transport.write(body)
 
         # Close connection (Gemini/Titan: one request per connection)
         self.transport.close()
